@@ -29,7 +29,7 @@ from ..sched import Scheduler, SchedulerError
 PROP = "C13"
 RUNS = {"quick": 1600, "thorough": 250000}
 BLOCK = {"quick": 20, "thorough": 500}
-WATCHDOG_S = 1200
+WATCHDOG_S = 3600
 TRACE_SAMPLE = 0  # scenarios run in child processes; reach is reported as switch sites instead
 SHRINK_LISTS = ["threads", "switches"]
 RULE = (
@@ -199,14 +199,16 @@ _STATS = {"forks": 0}
 
 
 def baselines(ops):
-    keys = [repr(op) for op in ops]
-    for k, op in zip(keys, ops):
+    if len(_CACHE) > 30000:
+        _CACHE.clear()  # only between scenarios: never while results of this call are being collected
+    out = []
+    for op in ops:
+        k = repr(op)
         if k not in _CACHE:
-            if len(_CACHE) > 30000:
-                _CACHE.clear()
             _CACHE[k] = _in_child(run_op, op)
             _STATS["forks"] += 1
-    return [_CACHE[k] for k in keys]
+        out.append(_CACHE[k])
+    return out
 
 
 _EMPTY = (dict, list, set)
